@@ -250,6 +250,74 @@ func (prop) Generate(rng *core.Rand, tier string, emit func(string)) {
 
 func fail(class, what string) core.Failure { return core.Failure{Class: class, What: what} }
 
+type tcase struct {
+	rs      []*route
+	hasErrs bool
+	errs    []*route
+	q       request
+}
+
+func (c tcase) line() string { return encCase(c.rs, c.hasErrs, c.errs, c.q) }
+
+// evaluate runs one case on the real code and applies the oracles to what was observed.
+func evaluate(c tcase) (got observed, tags []string, fails []core.Failure, err error) {
+	defer func() {
+		if r := recover(); r != nil {
+			tags = []string{"panic"}
+			fails = []core.Failure{fail("impl-panic", fmt.Sprint("routing panicked: ", r))}
+			err = nil
+			got = observed{panicked: true}
+		}
+	}()
+	rs, hasErrs, errs, q := c.rs, c.hasErrs, c.errs, c.q
+	got, err = serveReal(rs, hasErrs, errs, q)
+	if err != nil {
+		return
+	}
+
+	// ---- oracle 1: the documented routing rules, evaluated directly
+	want, tset := specEval(rs, hasErrs, errs, q)
+	for t := range tset {
+		tags = append(tags, t)
+	}
+	if len(got.events) == 0 && len(got.codes) == 0 {
+		tags = append(tags, "trivial")
+	}
+	ok := treeOk(rs, errs)
+	if !ok {
+		tags = append(tags, "tree:failure-possible-behind-subroute-with-errors")
+	}
+	if class, what := diffClass(got, want); class != "" {
+		if !ok && canon(got) == canon(codeEval(rs, hasErrs, errs, q).observed()) {
+			fails = append(fails, fail("subroute-errors-catch-failure-behind-subroute",
+				"an error raised BEHIND a subroute was diverted to that subroute's error routes and the rest of the chain ran again: "+what))
+		} else {
+			fails = append(fails, fail(class, what))
+		}
+	}
+
+	// ---- oracle 2 (two-run relation): nesting follows the same rules — wrapping the whole
+	// primary route list into one matcher-less subroute must not change anything observable
+	wrapped := []*route{{hs: []*handler{{kind: 's', routes: rs}}}}
+	if got2, err := serveReal(wrapped, hasErrs, errs, q); err != nil || canon(got2) != canon(got) {
+		fails = append(fails, fail("subroute-wrap-changes-outcome",
+			fmt.Sprintf("the same routes inside one subroute give %s instead of %s (%v)", canon(got2), canon(got), err)))
+	}
+	// ---- oracle 3 (two-run relation): a route that does not apply has no effect at all, even
+	// if it is terminal and shares a group with later routes
+	dead := &route{group: 1, terminal: true,
+		sets: [][]*matcher{{{kind: 'a', field: 1, vals: []int{(q.host + 1) % 3}}}},
+		hs:   []*handler{{kind: 'r', id: 999999, arg: 599}}}
+	if got3, err := serveReal(append([]*route{dead}, rs...), hasErrs, errs, q); err != nil || canon(got3) != canon(got) {
+		fails = append(fails, fail("inapplicable-route-changes-outcome",
+			fmt.Sprintf("prepending a route whose host matcher does not match gives %s instead of %s (%v)", canon(got3), canon(got), err)))
+	}
+	return
+}
+
+// shrunk counts, per failure class, how many failing inputs were minimised in this process.
+var shrunk = map[string]int{}
+
 func (prop) Run(line string) (o core.Outcome) {
 	f := strings.Fields(line)
 	if len(f) != 3 {
@@ -265,57 +333,21 @@ func (prop) Run(line string) (o core.Outcome) {
 	if !ok1 || !ok2 || !ok3 || !routesValid(rs) || !routesValid(errs) {
 		return core.Outcome{Impl: "bad-op", Tags: []string{"trivial", "malformed"}}
 	}
-
-	defer func() {
-		if r := recover(); r != nil {
-			o = core.Outcome{Impl: "panic", Tags: []string{"panic"},
-				Failures: []core.Failure{fail("impl-panic", fmt.Sprint("routing panicked: ", r))}}
-		}
-	}()
-
-	got, err := serveReal(rs, hasErrs, errs, q)
+	c := tcase{rs, hasErrs, errs, q}
+	got, tags, fails, err := evaluate(c)
 	if err != nil {
 		return core.Outcome{Impl: "harness-error", Tags: []string{"harness-error"},
 			Failures: []core.Failure{fail("config-rejected", "a route tree over the alphabets could not be provisioned or inspected: "+err.Error())}}
 	}
-	o.Impl = canon(got)
-
-	// ---- oracle 1: the documented routing rules, evaluated directly
-	want, tags := specEval(rs, hasErrs, errs, q)
-	for t := range tags {
-		o.Tags = append(o.Tags, t)
-	}
-	if len(got.events) == 0 && len(got.codes) == 0 {
-		o.Tags = append(o.Tags, "trivial")
-	}
-	ok := treeOk(rs, errs)
-	if !ok {
-		o.Tags = append(o.Tags, "tree:failure-possible-behind-subroute-with-errors")
-	}
-	if class, what := diffClass(got, want); class != "" {
-		if !ok && canon(got) == canon(codeEval(rs, hasErrs, errs, q).observed()) {
-			o.Failures = append(o.Failures, fail("subroute-errors-catch-failure-behind-subroute",
-				"an error raised BEHIND a subroute was diverted to that subroute's error routes and the rest of the chain ran again: "+what))
-		} else {
-			o.Failures = append(o.Failures, fail(class, what))
+	o.Impl, o.Tags = canon(got), tags
+	for _, fl := range fails {
+		if shrunk[fl.Class] < 4 {
+			shrunk[fl.Class]++
+			small, sf := shrink(c, fl.Class)
+			fl = sf
+			fl.Case = small.line()
 		}
-	}
-
-	// ---- oracle 2 (two-run relation): nesting follows the same rules — wrapping the whole
-	// primary route list into one matcher-less subroute must not change anything observable
-	wrapped := []*route{{hs: []*handler{{kind: 's', routes: rs}}}}
-	if got2, err := serveReal(wrapped, hasErrs, errs, q); err != nil || canon(got2) != canon(got) {
-		o.Failures = append(o.Failures, fail("subroute-wrap-changes-outcome",
-			fmt.Sprintf("the same routes inside one subroute give %s instead of %s (%v)", canon(got2), canon(got), err)))
-	}
-	// ---- oracle 3 (two-run relation): a route that does not apply has no effect at all, even
-	// if it is terminal and shares a group with later routes
-	dead := &route{group: 1, terminal: true,
-		sets: [][]*matcher{{{kind: 'a', field: 1, vals: []int{(q.host + 1) % 3}}}},
-		hs:   []*handler{{kind: 'r', id: 999999, arg: 599}}}
-	if got3, err := serveReal(append([]*route{dead}, rs...), hasErrs, errs, q); err != nil || canon(got3) != canon(got) {
-		o.Failures = append(o.Failures, fail("inapplicable-route-changes-outcome",
-			fmt.Sprintf("prepending a route whose host matcher does not match gives %s instead of %s (%v)", canon(got3), canon(got), err)))
+		o.Failures = append(o.Failures, fl)
 	}
 	return o
 }
